@@ -5,5 +5,7 @@ NEXT Next
 INVARIANT ExactlyOneOutcome
 INVARIANT StopsAtFirst
 INVARIANT TypeOK
+INVARIANT DiagBeforeOutput
+INVARIANT DiagStopsEarly
 INVARIANT Dump
 CHECK_DEADLOCK FALSE
